@@ -562,7 +562,10 @@ class TBRMatchedMarkets:
 
     kappa_0 = len(self.geo_assignments.t_fixed)
     group_star_trt = {kappa_0: self.geo_assignments.t_fixed}
-    tmp_diag = TBRMMDiagnostics(np.random.normal(range(100)), self.parameters)
+    # The placeholder series must be long enough for the A/A test, which sets
+    # aside the last n_test time points.
+    tmp_diag = TBRMMDiagnostics(
+        np.random.normal(range(100 + self.parameters.n_test)), self.parameters)
     tmp_diag.x = list(range(len(tmp_diag.y)))
     tmp_score = TBRMMScore(tmp_diag)
     tmp_score.score = tmp_score.score._replace(
